@@ -45,6 +45,8 @@ type drv struct {
 	r       *hx.Rng
 	h       *Hist
 	scripts map[string]*exh.Script // ABI answers per block ID: re-applying a block reproduces its events
+	sticky  *exh.Validator         // current run: several consecutive blocks by the same validator (finality jumps)
+	run     int
 }
 
 func (d *drv) observe(s *Step) {
@@ -103,6 +105,17 @@ func (d *drv) applyValid(what string) {
 	}
 	if d.r.Intn(4) == 0 {
 		bo.Txs = []*blockchain.Transaction{exh.MakeTx(d.r.U64()%100000, d.r.Intn(20))}
+	}
+	// runs of blocks by one validator: with unequal weights a heavy validator coming back precommits several heights at once
+	if d.run == 0 && d.r.Intn(4) == 0 {
+		gens := n.GeneratorAddrs()
+		d.sticky, d.run = n.ValidatorByAddr(gens[d.r.Intn(len(gens))]), 2+d.r.Intn(3)
+	}
+	if d.run > 0 {
+		d.run--
+		if d.sticky != nil {
+			bo.By = d.sticky
+		}
 	}
 	n.ABI.S = d.script(n.Tip().Header.Height + 1)
 	b := n.NextValid(bo)
@@ -242,6 +255,12 @@ func main() {
 	}()
 	for hi := 0; hi < *hists; hi++ {
 		opt := exh.Options{N: 1 + r.Intn(5)}
+		if opt.N >= 2 && r.Bool() {
+			// unequal BFT weights (thresholds stay at two thirds of the total): finality advances in jumps
+			for i := 0; i < opt.N; i++ {
+				opt.Weights = append(opt.Weights, uint64(1+r.Intn(3)))
+			}
+		}
 		if r.Intn(3) == 0 {
 			opt.KeepEvents, opt.KeepEventsSet = r.Intn(3), true
 		}
@@ -274,6 +293,12 @@ func main() {
 					panic(err)
 				}
 				d.observe(s)
+				// right after the restart (volatile state rebuilt): requests at and below the finalized height
+				if r.Intn(3) > 0 {
+					d.deleteFinalized()
+					for d.deleteTip(false, "after restart: delete down to the finalized height") {
+					}
+				}
 			default:
 				s := &Step{Op: "cleartemp", OK: true, What: "ClearTempBlocks"}
 				n.Chain.DataAccess().ClearTempBlocks()
